@@ -1077,6 +1077,10 @@ def _process_add_event_tick(
             if wait_condition.resolved_event is not None or wait_condition.timed_out:
                 continue
             is_match = type(tick.event) is wait_condition.waiting_for_event
+            # An event addressed to a specific step must not wake another step's waiter.
+            is_match = is_match and (
+                tick.step_name is None or tick.step_name == step_name
+            )
             is_match = is_match and all(
                 getattr(tick.event, k, None) == v
                 for k, v in wait_condition.requirements.items()
